@@ -1046,6 +1046,22 @@ func judge(c *StepCase, r0, r1 *RunResult) *Violation {
 		if c.ClassB {
 			return viol("C18", "irq_not_delivered", "class B program still running after %d steps although a panicking watchdog was scheduled", r1.Steps)
 		}
+		// only a schedule that cannot change the program's control flow (no-ops,
+		// and panics, which end it) makes an overrun a violation: an interrupt
+		// that sets the flag or lifts the stack limit, or a host-function fault
+		// caught by the script, can legitimately send a fuel-bounded program down
+		// a longer path than the step cap allows
+		effectful := len(c.HostFaults) > 0
+		for _, p := range r.pend {
+			if p.delivered && (p.irq.Kind == "mutate" || p.irq.Kind == "setlimit") {
+				effectful = true
+			}
+		}
+		if effectful {
+			r.st.Invalid++
+			r.st.Probe("overrun_under_effectful_fault_discarded")
+			return nil
+		}
 		return viol("C18", "runaway", "terminating program exceeded %d steps only under the fault schedule (reference: %d steps)", stepCapA, r0.Steps)
 	}
 	// oracle 1: delivery
@@ -1149,7 +1165,11 @@ func judgeHost(c *StepCase, r0, r1 *RunResult) *Violation {
 		return r.viol
 	}
 	if r.overrun {
-		return viol("C18", "runaway", "terminating program exceeded %d steps only because a host function panicked (reference: %d steps)", stepCapA, r0.Steps)
+		// a host-function panic that the script catches changes the control
+		// flow; the longer path of a fuel-bounded program is not a violation
+		r.st.Invalid++
+		r.st.Probe("overrun_under_effectful_fault_discarded")
+		return nil
 	}
 	if r1.Panicked {
 		ok := false
